@@ -25,7 +25,7 @@ CONFIGS = {"R1": dict(W=1), "R1b": dict(W=1), "R2": dict(W=1), "R3": dict(W=1), 
            "R6": dict(W=1, inactive=True), "R7": dict(W=1)}
 QUICK = ["R1", "R1b", "R2", "R5", "R6"]
 THOROUGH = QUICK + ["R3", "R4", "R7"]
-MUTANTS = [("R1b", "push_late_retain", PROP_INVS), ("R1", "wakeup_forgets_release", INVS),
+MUTANTS = [("R1b", "push_late_retain", PROP_INVS), ("R1", "wakeup_forgets_release", PROP_INVS),
            ("R1", "fin_on_xref_drop", PROP_INVS), ("R1", "xref_dispose_frees", PROP_INVS)]
 
 
